@@ -125,6 +125,18 @@ def one_trace(tid, rng, thorough):
     site = SITE_C if isclf else SITE_R
     sig = "binner=%s n_jobs=%s random_state=%s" % (binner_kind, n_jobs, "None" if seed is None else "int")
     t = dict(id=tid, isclf=isclf, weighted=weighted, site=site, sig=sig, y=[int(v) for v in y], w=[int(v) for v in w])
+    if rng.random() < 0.35:
+        # an earlier life of the estimator object: other rows (another tree / other cells), one routing call
+        t["sig"] += " refit"
+        X0, y0, _ = make_data(rng, rng.randint(max(4, ncls), 25), isclf, ncls)
+        X0[:, 1:] = 7 - X0[:, 1:] * 2
+        with warnings.catch_warnings():
+            warnings.simplefilter("ignore")
+            try:
+                model.fit(X0, y0)
+                model.predict(X0[:3])
+            except Exception:
+                pass
     del stubs.LOG[:]
     Xfit = X.copy()
     ev = []
